@@ -186,6 +186,9 @@ func (cr *CrashRec) onEvent(ev *FSEvent) (bool, int, error) {
 	var ferr error
 	if cr.Inj != nil {
 		failed, nWritten, ferr = cr.Inj.onEvent(ev)
+		if traceOn {
+			fmt.Fprintf(os.Stderr, "TRACE   fs #%d %s %s off=%d len=%d phase=%s failed=%v\n", ev.Seq, ev.Op, ev.Path, ev.Off, len(ev.Data), ev.Phase, failed)
+		}
 		if failed && cr.Power {
 			// a sync that fails has not made anything durable
 			if ev.Op == "sync" {
